@@ -67,7 +67,7 @@ func genOps(r *Rand, m *rd.Msg, nops int) (string, string) {
 				w := []int{1, 2, 4, 8}[r.Intn(4)]
 				off := r.Intn(pi.dsz + 9)
 				if r.Intn(20) == 0 {
-					off = []int{1<<19 - 1, 1<<19 - 8, 1<<19 - 4, 1<<18}[r.Intn(4)] // DataOffset is documented as bounded to [0, 1<<19)
+					off = []int{1<<19 - 1, 1<<19 - 8, 1<<19 - 4, 1 << 18}[r.Intn(4)] // DataOffset is documented as bounded to [0, 1<<19)
 				}
 				do(fmt.Sprintf("uint:%d:%d:%d", h, off, w))
 			case 3:
@@ -159,6 +159,16 @@ func run(out *Out, r *Rand, tier string, replay []string) {
 	if replay != nil {
 		for _, l := range replay {
 			f := strings.Fields(l)
+			if f[0] == "exhaust" {
+				var g, k, rounds int
+				fmt.Sscanf(f[1], "%d:%d:%d", &g, &k, &rounds)
+				obs := rd.ExhaustCase(rd.ParseHeader(f[2:]), g, k, rounds)
+				if strings.HasPrefix(obs, "ok") {
+					obs = "ok"
+				}
+				out.Case("exhaust", l, obs, obs, true)
+				continue
+			}
 			if f[0] == "conc" {
 				var k, dc, pc, fu int
 				fmt.Sscanf(f[1], "%d:%d:%d:%d", &k, &dc, &pc, &fu)
@@ -191,7 +201,7 @@ func run(out *Out, r *Rand, tier string, replay []string) {
 		out.Case(kind, line, obs, classOf(obs), strings.Count(obs, "P(") >= 2)
 	}
 	for i := 0; i < n; i++ {
-		switch r.Pick(10, 6, 8, 3) {
+		switch r.Pick(10, 6, 8, 4) {
 		case 0:
 			if segs, ok := rd.GenBuilt(r, 2+r.Intn(5), 10+r.Intn(60)); ok {
 				emit("built", segs)
@@ -225,6 +235,22 @@ func run(out *Out, r *Rand, tier string, replay []string) {
 			obs = "ok"
 		}
 		out.Case("conc", line, obs, obs, true)
+	}
+	// budget exhaustion under contention: exactly k of the attempted root dereferences succeed
+	nex := 6
+	rounds := 300
+	if tier == "thorough" {
+		nex, rounds = 20, 3000
+	}
+	for i := 0; i < nex; i++ {
+		m := &rd.Msg{Segs: [][]byte{rd.Words(rd.StructPtr(0, uint16(1+r.Intn(3)), uint16(r.Intn(2))), 1, 2, 3, 4)}, Arena: "S"}
+		g, k := 4+r.Intn(13), 1+r.Intn(40)
+		line := fmt.Sprintf("exhaust %d:%d:%d %s", g, k, rounds, m.Header())
+		obs := rd.ExhaustCase(m, g, k, rounds)
+		if strings.HasPrefix(obs, "ok") {
+			obs = "ok"
+		}
+		out.Case("exhaust", line, obs, obs, true)
 	}
 	// degenerate arenas
 	for _, segs := range [][][]byte{{}, {{}}, {{1, 2, 3}}, {rd.Words(0)}, {{}, rd.Words(0)}} {
